@@ -261,6 +261,19 @@ def check_C12(ctx):
                              "objects are 60-150 logical bytes so that every byte offset of the stored form is enumerated"] + E2_ASSUME[:2])
 
 
+def check_C14(ctx):
+    g = ctx.bin(GRID)
+    jobs = []
+    for mode in ("zstd", "uncompressed"):
+        for part in ("digests", "names", "http", "writes"):
+            jobs.append(Job(g, "TestC14", name="C14:%s/%s" % (part, mode), timeout=2400, env={"VERIF_PARAM_MODE": mode, "VERIF_PARAM_PART": part, "GOMAXPROCS": "4"}))
+    return dict(level="exploration", jobs=jobs,
+                rule="small-scope structural enumeration through the real handlers: 12 digest shapes (nil, empty, present, absent, empty blob, negative / huge size, four malformed hashes, zero size with a hash) at every digest position of every gRPC request type (pairs for SpliceBlob), FetchBlob uri x qualifier shapes, stored blobs (9 Directory, 5 Tree, 4 ActionResult shapes incl. nil digests and garbage) read back through GetTree / GetActionResult / HTTP; all token sequences up to length 4 (5 thorough) over 14 resource-name tokens for ByteStream.Read (x offsets, limits), Write and QueryWriteStatus; 21 URL paths x 9 HTTP methods; PUT header products (size header x encoding x content type x content length); all ByteStream.Write message sequences up to length 3 over 9 message kinds with a client abort after every prefix; non-trivial = distinct cells that completed",
+                assumptions=["bounded-exhaustive over message shapes and token sequences (small-scope hypothesis), not byte-level fuzzing",
+                             "gRPC handler panics are caught by the harness's interceptor and reported (the real server has no recovery: a panic there terminates the process)",
+                             "leaks: goroutines inside repository request code, reserved bytes, directory==index and open descriptors are compared with the baseline every 64 cells and at the end; waits are by state with a 20 s cap"])
+
+
 def check_C15(ctx):
     th = ctx.thorough()
     g = ctx.bin(GRID)
@@ -356,7 +369,7 @@ def check_C13(ctx):
                              "a method unknown to the harness's read-only list is treated as mutating"])
 
 
-CHECKS = {"C01": check_C01, "C02": check_C02, "C08": check_C08, "C09": check_C09, "C06": check_C06, "C10": check_C10, "C11": check_C11, "C12": check_C12, "C13": check_C13, "C15": check_C15, "C16": check_C16, "C17": check_C17, "C18": check_C18, "C03": check_C03, "C04": check_C04, "C05": check_C05, "C07": check_C07}
+CHECKS = {"C01": check_C01, "C02": check_C02, "C08": check_C08, "C09": check_C09, "C06": check_C06, "C10": check_C10, "C11": check_C11, "C12": check_C12, "C13": check_C13, "C14": check_C14, "C15": check_C15, "C16": check_C16, "C17": check_C17, "C18": check_C18, "C03": check_C03, "C04": check_C04, "C05": check_C05, "C07": check_C07}
 
 # per-property manifest metadata
 META = {
@@ -384,6 +397,12 @@ META = {
         note="Small-scope: <=3 entries per population, three size classes; atimes set explicitly.",
         technique="exhaustive enumeration of a bounded grammar of on-disk states x configurations, real start-up code, reference simulation oracle",
         design_ref="DESIGN.md 3 (C09)"),
+    "C14": dict(
+        category="exploration", engine="E4 grid",
+        text="Small-scope structural enumeration through the real handlers with panic-recording interceptors and a watchdog: every digest shape (nil, empty, present, absent, empty blob, negative/huge size, malformed hashes) at every digest position of every gRPC request type; FetchBlob uri x qualifier shapes; stored blobs that get interpreted as Directory, Tree or ActionResult (garbage, nil and malformed digests, missing children); every token sequence up to length 4/5 over 14 resource-name tokens for ByteStream.Read (with offset/limit sets), Write and QueryWriteStatus; URL paths x HTTP methods; PUT header products; every ByteStream.Write message sequence up to length 3 over 9 message kinds with a client abort after every prefix (and the stream closed without any message). Oracle: no panic, every call completes, malformed digests never answered OK; after the calls no goroutine inside repository request code, no active handler, reserved==0, directory==index, descriptors back to baseline.",
+        note="Exhaustive over shapes and token sequences up to the stated bounds (small-scope hypothesis); byte-level fuzzing would be a different technique family and is not done.",
+        technique="exhaustive enumeration of bounded request shapes / token sequences / message sequences through the real entry points with crash, hang and leak oracles",
+        design_ref="DESIGN.md 3 (C14)"),
     "C15": dict(
         category="model_checking", engine="E2 seqx + E4 grid",
         text="Explicit-state BFS over all operation sequences (depth 3 quick / 4 thorough) on a real disk cache whose alphabet makes the CAS, the validated AC and the raw AC collide on a single hash; every transition is compared with per-key-space reference maps (a write, overwrite, failed write or eviction in one space never changes what another space returns; zstd reads are only served from the CAS). Server level: every pairing of 12 instance names for write and read, through both front ends in both directions, with mangling on/off and HTTP validation on/off: with mangling a value is returned exactly for its own instance name (HTTP prefix == gRPC instance_name), without mangling for all; raw and validated caches independent; CAS ignores instance prefixes.",
